@@ -431,8 +431,9 @@ let do_playout fields =
 let do_roots fields =
   let toks = String.split_on_char ' ' (List.nth fields 1) in
   let cmds = List.map str_of_string toks in
+  let capt = (List.length fields > 2 && List.nth fields 2 = "C") in
   (match play_out_position zt cmds with
-   | Ok (b, _) -> emit "M" ("roots " ^ String.concat "," (List.sort compare (List.map model_uci (generate_moves zt b AllMoves))))
+   | Ok (b, _) -> emit "M" ("roots " ^ String.concat "," (List.sort compare (List.map model_uci (generate_moves zt b (if capt then CapturesOnly else AllMoves)))))
    | _ -> emit "M" "roots PANIC");
   (* spec: the rules applied to the start position, then the legal moves of the position reached *)
   let start_fen =
@@ -447,7 +448,7 @@ let do_roots fields =
        | mv :: rest -> (match parse_move_text mv with None -> None | Some m -> go (apply p m) rest) in
      (match go (abs0 b0) (after toks) with
       | None -> emit "S" "roots PANIC"
-      | Some p -> emit "S" ("roots " ^ String.concat "," (List.sort compare (List.map move_text (legal_moves p)))))
+      | Some p -> emit "S" ("roots " ^ String.concat "," (List.sort compare (List.map move_text (if capt then legal_captures p else legal_moves p)))))
    | _ -> emit "S" "roots PANIC")
 
 let do_legal fields =
